@@ -14,7 +14,7 @@ import json, os, re, shutil, subprocess, sys, time
 
 VERIF = os.path.dirname(os.path.dirname(os.path.abspath(__file__)))
 SEEDED = os.path.join(VERIF, "seeded")
-SCR = "/tmp/mutv"
+SCR = "/tmp/mutv-%d" % os.getpid()   # per process: two suites may run side by side
 
 
 def sh(cmd, **kw):
